@@ -34,8 +34,15 @@ fn scoring<A: Alphabet>(rows: &[Vec<f32>], background: &[f32]) -> PyResult<Scori
     if background.len() != k || rows.iter().any(|r| r.len() != k) {
         return Err(PyValueError::new_err("wrong number of columns"));
     }
-    let bg = Background::<A>::new(GenericArray::<f32, A::K>::from_iter(background.iter().cloned()))
-        .map_err(|_| PyValueError::new_err("invalid background"))?;
+    // the uniform background is built by `Background::uniform()` in the library (its f32 sum need not be
+    // exactly 1, e.g. 20 x 0.05 for proteins), everything else goes through the validating constructor
+    let uniform = Background::<A>::uniform();
+    let bg = if uniform.frequencies() == background {
+        uniform
+    } else {
+        Background::<A>::new(GenericArray::<f32, A::K>::from_iter(background.iter().cloned()))
+            .map_err(|_| PyValueError::new_err("invalid background"))?
+    };
     let data = DenseMatrix::<f32, A::K>::from_rows(rows.iter().map(|r| r.as_slice()).collect::<Vec<_>>());
     Ok(ScoringMatrix::new(bg, data))
 }
